@@ -175,6 +175,45 @@ fn loopfilter_cases(drv: &mut Drv, rep: &mut Report, rng: &mut Rng, n: usize) {
     }
 }
 
+/// `read_residual_data` for one macroblock (hook d9b6b20) against the model Vp8Resid.readResidual:
+/// both macroblock kinds (with Y2 + inverse WHT / B_PRED), every context-flag pattern above and to
+/// the left, default and random probabilities, quantiser sextuples incl. the extremes, partitions
+/// that are random, sparse (many empty blocks, so the DC-only and untouched-block paths are taken)
+/// or end inside the macroblock
+fn residual_cases(drv: &mut Drv, rep: &mut Report, rng: &mut Rng, n: usize) {
+    for i in 0..n {
+        let bpred = rng.chance(1, 2);
+        let mut top = [0u8; 9];
+        let mut left = [0u8; 9];
+        for k in 0..9 { top[k] = rng.chance(1, 2) as u8; left[k] = rng.chance(1, 2) as u8; }
+        let quant: [i16; 6] = match rng.below(4) { 0 => [4, 4, 8, 8, 4, 4], 1 => [157, 284, 314, 440, 132, 284], _ => [rng.range(4, 157) as i16, rng.range(4, 284) as i16, 2 * rng.range(4, 157) as i16, rng.range(8, 440) as i16, rng.range(4, 132) as i16, rng.range(4, 284) as i16] };
+        let len = match i % 5 { 0 => rng.below(12) as usize, 1 => rng.range(12, 60) as usize, _ => rng.range(60, 700) as usize };
+        let style = rng.below(5);
+        let mut data: Vec<u8> = (0..len).map(|_| match style { 0 => rng.byte(), 1 => if rng.chance(1, 8) { rng.byte() } else { 0 }, 2 => if rng.chance(1, 8) { rng.byte() } else { 255 }, 3 => rng.byte() & rng.byte(), _ => rng.byte() | rng.byte() }).collect();
+        if !data.is_empty() && data[0] == 255 { data[0] = 254; }
+        let probs: Vec<u8> = if rng.chance(1, 2) {
+            (0..4).flat_map(image_webp::verif_hooks::default_coeff_probs).collect()
+        } else {
+            (0..4 * 8 * 3 * 11).map(|_| if rng.chance(1, 12) { *rng.pick(&[0u8, 1, 254, 255]) } else { rng.byte() }).collect()
+        };
+        let fl = |a: &[u8; 9]| a.iter().map(|v| if *v != 0 { '1' } else { '0' }).collect::<String>();
+        let line = format!("vp8resid {} {} {} {} {} {}", bpred as u8, fl(&top), fl(&left), quant.iter().map(|q| q.to_string()).collect::<Vec<_>>().join(","), hex(&probs), if data.is_empty() { "-".to_string() } else { hex(&data) });
+        let got = match catch(|| hk::vp8_read_residual_data(&data, &probs, bpred, top, left, quant)) {
+            Ok(Ok((blocks, nz, t, l))) => format!("ok {} {} {} {}", nz as u8, fl(&t), fl(&l), blocks.iter().map(|v| v.to_string()).collect::<Vec<_>>().join(",")),
+            Ok(Err(_)) => "err".to_string(),
+            Err(m) => format!("PANIC {m}"),
+        };
+        let exp = drv.ask(&line);
+        rep.case(&line, true);
+        rep.hit(if got == "err" { "residual_partition_exhausted" } else if bpred { "residual_bpred" } else { "residual_with_y2" });
+        if got.starts_with("ok 0") { rep.hit("residual_all_zero_macroblock"); }
+        if got != exp {
+            let k = got.split(' ').zip(exp.split(' ')).position(|(a, b)| a != b).unwrap_or(9);
+            rep.disagree(Disagreement { case: line, got: got.chars().take(120).collect(), expected: exp.chars().take(120).collect(), class: "violation", obligation: "C02: read_residual_data reads the 25 / 24 blocks of a macroblock in the order, with the plane types, contexts and dequantisation factors RFC 6386 section 13 defines, spreads the inverse WHT of the Y2 block over the luma DC positions and inverts the DCT of every coded block (model Vp8Resid.readResidual)".into(), detail: format!("first differing field: {}", ["status", "non-zero flag", "context flags above", "context flags left", "values"].get(k).unwrap_or(&"?")) });
+        }
+    }
+}
+
 /// `read_coefficients` (hook 99a8eca) against the model Vp8Coef.readCoefficients: random and biased
 /// partitions (long zero runs, end-of-block right away, large categories), the crate's default
 /// probabilities and random ones (incl. 0 and 255), every plane and starting context, several calls
@@ -664,6 +703,7 @@ pub fn run(o: &Opts) -> Report {
     coefficient_cases(&mut drv, &mut rep, &mut rng, if o.thorough() { 40000 } else { 4000 });
     quant_cases(&mut drv, &mut rep, &mut rng, if o.thorough() { 40000 } else { 4000 });
     loopfilter_cases(&mut drv, &mut rep, &mut rng, if o.thorough() { 12000 } else { 900 });
+    residual_cases(&mut drv, &mut rep, &mut rng, if o.thorough() { 20000 } else { 1500 });
     fparam_cases(&mut drv, &mut rep, &mut rng, if o.thorough() { 100000 } else { 6000 });
     // (b) frames
     let n = if o.thorough() { 1200 } else { 160 };
